@@ -198,8 +198,11 @@ Definition CYC := mk4 67 89 67. Definition ECY := mk4 69 67 89.
 Definition DIR := mk4 68 73 82. Definition EOD := mk4 69 79 68.
 Definition TAI := mk4 84 65 73.
 
-(* read_cycle_signals: fuel = input length *)
-Fixpoint cycle_signals (fuel : nat) (sigs : list ghw_sig) (pos : nat) (vb : vec_buffer) (e : encoder)
+(* read_cycle_signals: fuel = input length.  `pos` is the usize position counter (an N here: a
+   delta can be any u64, so it must never become a unary nat before it is known to be an index):
+   `pos += delta` panics on overflow (debug build), `pos as u32` truncates, NonZeroU32::new(0).unwrap()
+   and the index into the signal table panic when out of range *)
+Fixpoint cycle_signals (fuel : nat) (sigs : list ghw_sig) (pos : N) (vb : vec_buffer) (e : encoder)
          (input : list byte) : outcome (option (vec_buffer * encoder * list byte)) :=
   match fuel with
   | O => Ok None
@@ -209,12 +212,18 @@ Fixpoint cycle_signals (fuel : nat) (sigs : list ghw_sig) (pos : nat) (vb : vec_
     | Some (delta, r) =>
       if delta =? 0 then Ok (Some (vb, e, r))
       else
-        let pos' := (pos + N.to_nat delta)%nat in
-        do x <- read_signal_value sigs (pos' - 1) vb e r;
-        match x with
-        | None => Ok None
-        | Some (vb', e', r') => cycle_signals f sigs pos' vb' e' r'
-        end
+        let pos' := pos + delta in
+        if 18446744073709551616 <=? pos' then Panic
+        else
+          let id32 := pos' mod 4294967296 in
+          if id32 =? 0 then Panic
+          else if N.of_nat (length sigs) <=? id32 - 1 then Panic
+          else
+            do x <- read_signal_value sigs (N.to_nat (id32 - 1)) vb e r;
+            match x with
+            | None => Ok None
+            | Some (vb', e', r') => cycle_signals f sigs pos' vb' e' r'
+            end
     end
   end.
 
@@ -225,7 +234,7 @@ Fixpoint cycle_loop (fuel : nat) (sigs : list ghw_sig) (time : N) (vb : vec_buff
   | O => Ok None
   | S f =>
     do e1 <- time_change lz_compress cap e time;
-    do x <- cycle_signals (S (length input)) sigs 0 vb e1 input;
+    do x <- cycle_signals (S (length input)) sigs 0%N vb e1 input;
     match x with
     | None => Ok None
     | Some (vb2, e2, r) =>
@@ -250,6 +259,14 @@ Fixpoint snapshot_signals (sigs : list ghw_sig) (n : nat) (idx : nat) (vb : vec_
     | None => Ok None
     | Some (vb', e', r) => snapshot_signals sigs k (S idx) vb' e' r
     end
+  end.
+
+(* read_directory: every entry is a 4 byte section name and a position read with read_u32, which rejects
+   values with the sign bit set *)
+Fixpoint dir_entries_ok (big_endian : bool) (n : nat) (body : list byte) : bool :=
+  match n with
+  | O => true
+  | S k => (read_int big_endian (firstn 4 (skipn 4 body)) <? 2147483648) && dir_entries_ok big_endian k (skipn 8 body)
   end.
 
 (* read_signals: Ok None = an error (unexpected end of input, bad marker, ...) *)
@@ -292,8 +309,10 @@ Fixpoint sections (fuel : nat) (big_endian : bool) (sigs : list ghw_sig) (vb : v
           if 2147483648 <=? n then Ok None                        (* read_u32 of a negative i32 *)
           else
             let body := skipn 8 r in
+            if N.of_nat (length body) <? n * 8 + 4 then Ok None       (* decided in N: n may be any u31 *)
+            else
             let need := (N.to_nat n * 8)%nat in
-            if (length body <? need + 4)%nat then Ok None
+            if negb (dir_entries_ok big_endian (N.to_nat n) body) then Ok None
             else if mark_eq (firstn 4 (skipn need body)) EOD
                  then sections f big_endian sigs vb e (skipn (need + 4) body) else Ok None
       else if mark_eq mark TAI then
